@@ -11,7 +11,7 @@
    default 1-d geometry against a StepExpansion / user Continuous1D subclass on the same grid) -- all
    only under q_today. *)
 From CV Require Import Base.Tac Base.LinAlg Base.QcLin Base.Cmp Model.C12_Model Model.C12_Jac Model.C12_Pde Model.C12_Args
-     Proofs.C12_Model Proofs.C12_Chain Proofs.C12_Instances Proofs.C12_Pde Proofs.C12_Deriv Proofs.C12_Args.
+     Proofs.C12_Model Proofs.C12_Chain Proofs.C12_Instances Proofs.C12_Pde Proofs.C12_Deriv Proofs.C12_Unique Proofs.C12_Args.
 From Coq Require Import QArith Qcanon.
 
 (* Parameter vector, function values flagged as such, CUQIarray carrying the domain geometry as parameters
@@ -379,7 +379,8 @@ Print Assumptions C12_chain_rule_value_is_gradient.
 Theorem C12_geo_jac_is_jacobian : forall dg w wf JG,
   geo_jac dg w = Some JG -> g_par2fun dg w = Ok wf ->
   forall h, length h = length w ->
-  exists c2, length c2 = length wf /    forall t, g_par2fun dg (qvadd w (qvscale t h)) =
+  exists c2, length c2 = length wf /\
+    forall t, g_par2fun dg (qvadd w (qvscale t h)) =
               Ok (qvadd (qvadd wf (qvscale t (qmatvec JG h))) (qvscale (t * t)%Qc (pvec_eval c2 t))).
 Proof. exact geo_jac_is_jacobian. Qed.
 Print Assumptions C12_geo_jac_is_jacobian.
@@ -389,7 +390,8 @@ Print Assumptions C12_geo_jac_is_jacobian.
 Theorem C12_par2out_jacobian_law : forall n A csF b dg w wf JG,
   geo_jac dg w = Some JG -> g_par2fun dg w = Ok wf -> wf_mat n A -> length wf = n -> length b = length A ->
   forall h, length h = length w -> length (qmatvec JG h) = n ->
-  exists c2, length c2 = length (poly_forward A csF b wf) /    forall t, par2out A csF b dg (qvadd w (qvscale t h)) =
+  exists c2, length c2 = length (poly_forward A csF b wf) /\
+    forall t, par2out A csF b dg (qvadd w (qvscale t h)) =
               Ok (qvadd (qvadd (poly_forward A csF b wf) (qvscale t (qmatvec (poly_jac A (pderiv csF) wf) (qmatvec JG h))))
                         (qvscale (t * t)%Qc (pvec_eval c2 t))).
 Proof. exact par2out_jacobian. Qed.
@@ -400,6 +402,40 @@ Theorem C12_jacobian_product_apply : forall m (JF JG : mat) h, wf_mat m JG -> le
 Proof. exact jacobian_product_apply. Qed.
 Print Assumptions C12_jacobian_product_apply.
 
+(* UNIQUENESS: the three laws above determine the derivative.  A polynomial over Q that vanishes at every non-zero point is
+   zero, so the linear coefficient of  F(t) = c + t a + t^2 R(t)  (all t, R a polynomial) is unique: pderiv is THE derivative,
+   geo_jac(w) h is THE derivative of par2fun at w along h, J_F J_G h THE derivative of the parameter-to-output map. *)
+Theorem C12_derivative_is_unique : forall (F : Qc -> Qc) c a b ra rb,
+  (forall t, F t = c + t * a + t * t * peval ra t) ->
+  (forall t, F t = c + t * b + t * t * peval rb t) -> a = b.
+Proof. exact linear_coefficient_unique. Qed.
+Print Assumptions C12_derivative_is_unique.
+
+Theorem C12_pderiv_is_the_derivative : forall cs (f' : Qc -> Qc),
+  (forall x, exists rs, forall h, peval cs (x + h) = peval cs x + h * f' x + h * h * peval rs h) ->
+  forall x, f' x = peval (pderiv cs) x.
+Proof. exact pderiv_is_the_derivative. Qed.
+Print Assumptions C12_pderiv_is_the_derivative.
+
+Theorem C12_geo_jac_is_the_jacobian : forall dg w wf JG h v,
+  geo_jac dg w = Some JG -> g_par2fun dg w = Ok wf -> length h = length w ->
+  length (qmatvec JG h) = length wf -> length v = length wf ->
+  (exists c2, length c2 = length wf /\
+     forall t, g_par2fun dg (qvadd w (qvscale t h)) = Ok (qvadd (qvadd wf (qvscale t v)) (qvscale (t * t)%Qc (pvec_eval c2 t)))) ->
+  v = qmatvec JG h.
+Proof. exact geo_jac_unique. Qed.
+Print Assumptions C12_geo_jac_is_the_jacobian.
+
+Theorem C12_par2out_jacobian_is_unique : forall n A csF b dg w wf JG h v,
+  geo_jac dg w = Some JG -> g_par2fun dg w = Ok wf -> wf_mat n A -> length wf = n -> length b = length A ->
+  length h = length w -> length (qmatvec JG h) = n -> length v = length A ->
+  (exists c2, length c2 = length (poly_forward A csF b wf) /\
+     forall t, par2out A csF b dg (qvadd w (qvscale t h)) =
+               Ok (qvadd (qvadd (poly_forward A csF b wf) (qvscale t v)) (qvscale (t * t)%Qc (pvec_eval c2 t)))) ->
+  v = qmatvec (poly_jac A (pderiv csF) wf) (qmatvec JG h).
+Proof. exact par2out_jacobian_unique. Qed.
+Print Assumptions C12_par2out_jacobian_is_unique.
+
 (* non-vacuity: geo_jac is defined for one geometry of each instance kind (identity with a unit gradient attached, mapped
    f = 2p+1 with gradient, StepExpansion(4 nodes, 2 steps), a 3x2 linear expansion) and model_gfun holds for a matrix model *)
 Example C12_chain_rule_instances_example :
@@ -409,13 +445,17 @@ Example C12_chain_rule_instances_example :
   geo_jac (mkGeo KStep 2 3 (CvLin (map zq [[1;0];[1;1];[0;2]]%Z) (map zq [[1;0;0];[0;0;1]]%Z)) None F2Base
                  (Some (GGMatT 2 (map zq [[1;0];[1;1];[0;2]]%Z))) 3) (zq [1;2]%Z) <> None /\
   model_gfun (GAdjMat 3 w5_A) 3 w5_A (zq [0;1]%Z) /\
-  chain_rule_value w5_A (zq [0;0;1]%Z) (g_mapped 3 [1;2]%Z F2NoImap (Some (GGDiag (pderiv (zq [1;2]%Z)) SelDirWrt))) w5_d w5_w
-    = Some (zq [12;20;-84]%Z).
+  match chain_rule_value w5_A (zq [0;0;1]%Z) (g_mapped 3 [1;2]%Z F2NoImap (Some (GGDiag (pderiv (zq [1;2]%Z)) SelDirWrt))) w5_d w5_w with
+  | Some g => qcl_eqb g (zq [12;20;-84]%Z) | None => false end = true.
 Proof.
-  repeat split; try (vm_compute; discriminate).
-  - right; right; right; right; left. split; reflexivity.
-  - apply f_equal. apply qcl_eqb_eq. vm_compute. reflexivity.
+  split; [vm_compute; discriminate|]. split; [vm_compute; discriminate|]. split; [vm_compute; discriminate|].
+  split; [vm_compute; discriminate|].
+  split; [right; right; right; right; left; split; reflexivity|].
+  vm_compute. reflexivity.
 Qed.
+
+Import String.StringSyntax.
+Local Open Scope string_scope.
 
 (* ---- (ii) get_non_default_args and the call func(x) ------------------------------------------------
    A signature is the list of (name, kind, has a default) in declaration order, every parameter kind; the model names
@@ -448,20 +488,26 @@ Theorem C12_forward_accepts_named : forall sg a bnd, call1 sg = Some bnd ->
 Proof. exact forward_accepts_named. Qed.
 Print Assumptions C12_forward_accepts_named.
 
+(* "multiple-input models": a forward callable with several required parameters is refused however forward is called *)
+Theorem C12_forward_refuses_several_inputs : forall nda sg npos kws,
+  NoDup nda -> (2 <= length nda)%nat -> forward_accepts nda sg npos kws = false.
+Proof. exact forward_refuses_several_inputs. Qed.
+Print Assumptions C12_forward_refuses_several_inputs.
+
 (* the code before /repo 074a70c (variadics recognised by the NAMES args / kwargs) was right exactly under the naming
    convention, and wrong outside it: FIXED in /repo; witness kept *)
 Theorem C12_non_default_args_by_name_agrees_under_convention : forall sg,
-  (forall p, In p sg -> is_variadic (pa_kind p) = (String.eqb (pa_name p) "args" || String.eqb (pa_name p) "kwargs")%string) ->
+  (forall p, In p sg -> is_variadic (pa_kind p) = (String.eqb (pa_name p) "args" || String.eqb (pa_name p) "kwargs")) ->
   non_default_args true sg = non_default_args false sg.
 Proof. exact by_name_agrees_under_convention. Qed.
 Print Assumptions C12_non_default_args_by_name_agrees_under_convention.
 
 Theorem C12_non_default_args_by_name_refuted :
-  non_default_args true sg_args = [] /\ non_default_args false sg_args = ["args"%string] /\
+  non_default_args true sg_args = [] /\ non_default_args false sg_args = ["args"] /\
   call1 sg_args = Some (BoundParam "args") /\
   forward_accepts (non_default_args true sg_args) sg_args 1 [] = false /\
   forward_accepts (non_default_args false sg_args) sg_args 1 [] = true /\
-  non_default_args true sg_rest = ["x"; "rest"; "options"]%string /\ non_default_args false sg_rest = ["x"%string] /\
+  non_default_args true sg_rest = ["x"; "rest"; "options"] /\ non_default_args false sg_rest = ["x"] /\
   forward_accepts (non_default_args true sg_rest) sg_rest 1 [] = false /\
   forward_accepts (non_default_args false sg_rest) sg_rest 1 [] = true.
 Proof. exact witness_by_name. Qed.
